@@ -214,6 +214,9 @@ func registerStringStubs() {
 	}
 	specials["strconv.Atoi"] = func(i *interpreter, fr *frame, fn *ssa.Function, args []value) value {
 		errT := fn.Signature.Results().At(1).Type()
+		if isBStr(args[0]) {
+			return callSSAbody(i, fr.caller, fn, args, nil)
+		}
 		s, ok := args[0].(string)
 		if !ok {
 			unsupported("strconv.Atoi on a symbolic string")
